@@ -407,6 +407,39 @@ func TestNoSecretsGuard(t *testing.T) {
 					rt.Fatalf("%v\nHandle.WriteWithNoSecrets(%s) wrote a different keyset (%v):\n got  %v\n want %v", c, w.name, rerr, got, pristine)
 				}
 			}
+			// 3. exporting from handles a Manager built: from the handle as a whole, and from its key
+			// objects added one by one (entries that never had a proto form of their own)
+			if mh, err := keyset.NewManagerFromHandle(full).Handle(); err != nil {
+				rt.Fatalf("%v\nNewManagerFromHandle(handle).Handle(): %v", c, err)
+			} else {
+				verdict("WriteWithNoSecrets of the handle of NewManagerFromHandle(handle)", mh.WriteWithNoSecrets(&keyset.MemReaderWriter{}))
+			}
+			m2, built := keyset.NewManager(), true
+			for i := 0; i < full.Len() && built; i++ {
+				e, err := full.Entry(i)
+				if err != nil {
+					rt.Fatalf("%v\nEntry(%d): %v", c, i, err)
+				}
+				opts := []keyset.KeyOpts{keyset.WithFixedID(e.KeyID()), keyset.WithStatus(e.KeyStatus())}
+				if e.IsPrimary() {
+					opts = append(opts, keyset.AsPrimary())
+				}
+				if _, err := m2.AddKeyWithOpts(e.Key(), internalapi.Token{}, opts...); err != nil {
+					built = false
+					evid.Add("manager_rebuild_refused", 1)
+				}
+			}
+			if built {
+				if mh, err := m2.Handle(); err == nil {
+					mem := &keyset.MemReaderWriter{}
+					err := mh.WriteWithNoSecrets(mem)
+					verdict("WriteWithNoSecrets of a handle built key by key with a Manager", err)
+					if err == nil && !proto.Equal(mem.Keyset, pristine) {
+						rt.Fatalf("%v\nWriteWithNoSecrets of a handle built key by key with a Manager wrote a different keyset:\n got  %v\n want %v", c, mem.Keyset, pristine)
+					}
+					evid.Add("manager_built_exports", 1)
+				}
+			}
 		}
 		if !proto.Equal(c.ks, pristine) {
 			rt.Fatalf("%v\nthe input keyset was modified", c)
